@@ -5,6 +5,7 @@ import (
 	"math/rand"
 	"runtime"
 	"sort"
+	"strconv"
 	"sync"
 	"time"
 
@@ -56,6 +57,7 @@ type instance struct {
 	setup    bool
 	live     bool
 	curEvent int
+	curKind  string // kind of the event being executed (sync sequences: the origin of a write)
 	events   []Event
 
 	waiting     map[string]map[int]time.Time
@@ -230,6 +232,9 @@ func errStr(e *cluster.CoordErr) string {
 // exec executes one concrete event.
 func (in *instance) exec(ev *Event) {
 	in.counts["ev_"+ev.Kind]++
+	in.mu.Lock()
+	in.curKind = ev.Kind
+	in.mu.Unlock()
 	switch ev.Kind {
 	case "crash": // the process dies; Arg=1: its register key disappears at once
 		n := in.node(ev.Node)
@@ -428,6 +433,66 @@ func (in *instance) exec(ev *Event) {
 		in.guard("processRemovingNodes", func() {
 			in.coord.VerifProcessRemovingNodes(in.closedChan, removing)
 		})
+	case "op_remove":
+		// Operator API (pdserver HTTP): PDCoordinator.RemoveNamespaceFromNode at an arbitrary state.
+		// Arg 0: Node is (usually) a current replica; 1: bad partition string; 2: partition out of range.
+		n := in.node(ev.Node)
+		if n == nil {
+			return
+		}
+		pidStr := strconv.Itoa(ev.Pid)
+		switch ev.Arg {
+		case 1:
+			pidStr = "x" + pidStr
+		case 2:
+			pidStr = strconv.Itoa(ev.Pid + 1000)
+		}
+		in.mu.Lock()
+		if ri, ok := in.reg.currentReplicaLocked(in.p.NS, ev.Pid); ok && ev.Arg == 0 {
+			cls := "op_remove_state"
+			isr := len(ri.GetISR())
+			switch {
+			case cluster.FindSlice(ri.RaftNodes, n.nid) == -1:
+				cls += "_non_member"
+			case isr*2 > in.p.Replica && (isr-1)*2 <= in.p.Replica:
+				cls += "_at_minimal_majority"
+			case isr < in.p.Replica:
+				cls += "_below_replica"
+			case isr == in.p.Replica:
+				cls += "_at_replica"
+			default:
+				cls += "_above_replica"
+			}
+			in.counts[cls]++
+			if len(ri.Removings) > 0 {
+				in.counts["op_remove_state_with_pending_removal"]++
+			}
+			if d := in.w.deadCountLocked(ri.RaftNodes); d > 0 {
+				in.counts["op_remove_state_with_dead_replica"]++
+				if d*2 > len(ri.RaftNodes) {
+					in.counts["op_remove_state_with_majority_dead"]++
+				}
+			}
+		}
+		in.mu.Unlock()
+		in.guard("RemoveNamespaceFromNode", func() {
+			if err := in.coord.RemoveNamespaceFromNode(in.p.NS, pidStr, n.nid); err != nil {
+				ev.Res = err.Error()
+				in.counts["op_remove_refused"]++
+			} else {
+				ev.Res = "ok"
+				in.counts["op_remove_ok"]++
+			}
+		})
+	case "op_stable_num": // operator API: lower the stable node number to the number of nodes currently listed
+		in.mu.Lock()
+		cnt := len(in.w.listedInfosLocked())
+		in.mu.Unlock()
+		if err := in.coord.SetClusterStableNodeNum(cnt); err != nil {
+			ev.Res = err.Error()
+		}
+	case "op_autobalance": // operator API: switch automatic balance/migration off (Arg 0) or on (Arg 1)
+		in.coord.SwitchAutoBalance(ev.Arg == 1)
 	case "mark_node": // admin API: decommission a node
 		n := in.node(ev.Node)
 		if n != nil {
@@ -499,7 +564,7 @@ func (ws *weights) pick(r *rand.Rand) string {
 var syncWeights = mkWeights(map[string]int{
 	"check": 30, "world": 26, "scan": 3, "crash": 6, "ttl": 5, "restart": 7, "new_node": 2, "flip": 5,
 	"migrate": 5, "finish": 3, "add": 2, "remove": 3, "save": 2, "delist": 1, "reg_fail": 1, "mark_node": 1,
-	"balance_add": 3, "proc_removing": 3,
+	"balance_add": 3, "proc_removing": 3, "op_remove": 5, "op_stable_num": 1, "op_autobalance": 1,
 })
 
 // genEvent chooses the next event from the current state.
@@ -549,6 +614,22 @@ func (in *instance) genEvent(r *rand.Rand, ws *weights) Event {
 		ev.Acts = in.genWorldActs(r)
 	case "check":
 		if r.Intn(8) == 0 {
+			ev.Arg = 1
+		}
+	case "op_remove":
+		ev.Node = 1 + r.Intn(nNodes)
+		in.mu.Lock()
+		if ri, ok := in.reg.currentReplicaLocked(in.p.NS, ev.Pid); ok && len(ri.RaftNodes) > 0 && r.Intn(8) != 0 {
+			ev.Node = int(cluster.ExtractRegIDFromGenID(ri.RaftNodes[r.Intn(len(ri.RaftNodes))]))
+		}
+		in.mu.Unlock()
+		if x := r.Intn(20); x == 0 {
+			ev.Arg = 1
+		} else if x == 1 {
+			ev.Arg = 2
+		}
+	case "op_autobalance":
+		if r.Intn(10) < 7 {
 			ev.Arg = 1
 		}
 	case "proc_removing":
